@@ -208,6 +208,36 @@ def call_sequences(ck, tier, seed):
                 ctx.add_(7.0)
 
 
+def context_dtypes(ck, tier, seed):
+    """the documented result of sample / sample_and_log_prob is a batch of real-valued draws whatever the dtype of the context
+    (labels, masks, half precision): shapes as documented, floating-point dtype, not all whole numbers"""
+    from nflows.distributions import normal
+    from nflows.flows.base import Flow
+    from nflows.transforms.standard import PointwiseAffineTransform
+    objs = {"StandardNormal[3]": normal.StandardNormal([3]), "StandardNormal[2, 2]": normal.StandardNormal([2, 2]),
+            "Flow(affine,StandardNormal)": Flow(PointwiseAffineTransform(0.5, 2.0), normal.StandardNormal([3]))}
+    ctxs = {"int64": torch.tensor([[3], [1]], dtype=torch.int64), "int32": torch.tensor([[3], [1]], dtype=torch.int32),
+            "bool": torch.tensor([[True], [False]]), "float16": torch.tensor([[0.5], [1.5]], dtype=torch.float16),
+            "float64": torch.tensor([[0.5], [1.5]], dtype=torch.float64)}
+    for oname, d in objs.items():
+        ev = [2, 2] if "2, 2" in oname else [3]
+        for cname, c in ctxs.items():
+            for meth, bs in (("sample", None), ("sample", 2), ("sample_and_log_prob", None)):
+                torch.manual_seed(seed)
+                r = attempt(d.sample, 5, c, bs) if (meth == "sample" and bs) else attempt(getattr(d, meth), 5, c)
+                ck.case(("ctx-dtype", oname, cname, meth, bs), nontrivial=True)
+                case = {"search": "context-dtype", "cls": oname, "context_dtype": cname, "method": meth, "batch_size": bs}
+                if r[0] != "ok":
+                    ck.count("context-dtype-rejected")
+                    continue
+                smp = r[1] if meth == "sample" else r[1][0]
+                whole = bool((smp.double() == smp.double().round()).all())
+                if list(smp.shape) != [2, 5] + ev or not smp.dtype.is_floating_point or whole:
+                    ck.finding("sample-dtype:context-%s:%s" % ("integer" if cname in ("int64", "int32", "bool") else "float", oname.split("[")[0].split("(")[0]),
+                               "%s.%s(5, %s context%s) -> shape %s, dtype %s%s" % (oname, meth, cname, ", batch_size=2" if bs else "", list(smp.shape), smp.dtype,
+                                                                                  ", every value a whole number" if whole else ""), case)
+
+
 def run(tier, seed):
     ck = Check("C18", tier, seed, areas=["shapes"], gen_groups=["DistBase", "Typechecks", "FlowRows"])
     ck.rule = ("every distribution / flow class in the catalogue x num_samples 1..7 x batch_size {None,1..8} x context "
@@ -310,6 +340,7 @@ def run(tier, seed):
                            "sample(3, batch_size=%r) -> %s" % (badbs, r[:2]), {"search": "badbs", "cls": name, "arg": repr(badbs)})
     batched_rows(ck, tier, seed)
     call_sequences(ck, tier, seed)
+    context_dtypes(ck, tier, seed)
     if drv is not None:
         ck.sample({"call": "StandardNormal([2,3]).sample(5, context rows 4, batch_size 2)",
                    "model": model(drv, "sample", Z([2, 3]), p(5), Z([4, 7]), p(2), z(1))})
